@@ -485,3 +485,31 @@ pub fn replay(prop: &str, text: &str) -> i32 {
     match check_c13(&defs, KeyCode::Q, KeyCode::ESC) { Ok(()) => { println!("NOT-REPRODUCED: the expansion equals the hand-written one"); 0 }, Err(m) => { println!("REPRODUCED: {}", m); 1 } }
   }
 }
+
+/// Evidence for two ASSUMED contracts the C13 proof of the repeat-only pass uses: (1) the derived Ord of KeyCode is a total order consistent with == -
+/// COMPLETE over all key codes (every pair for totality / antisymmetry, every triple for transitivity); (2) `sort` on a Vec<KeyCode> leaves an ascending
+/// permutation - seeded random vectors (bounded).
+pub fn ord_sort_probe(n: u64, seed: u64) -> i32 {
+  let all = all_key_codes();
+  let mut fails: Vec<serde_json::Value> = Vec::new();
+  let m = all.len();
+  let le: Vec<Vec<bool>> = all.iter().map(|a| all.iter().map(|b| a <= b).collect()).collect();
+  for i in 0..m { for j in 0..m {
+    if !(le[i][j] || le[j][i]) && fails.len() < 3 { fails.push(serde_json::json!({"input": format!("{:?}, {:?}", all[i], all[j]), "what": "neither a <= b nor b <= a"})); }
+    if le[i][j] && le[j][i] && all[i] != all[j] && fails.len() < 3 { fails.push(serde_json::json!({"input": format!("{:?}, {:?}", all[i], all[j]), "what": "a <= b and b <= a but a != b"})); }
+    if (all[i] == all[j]) != (i == j) && fails.len() < 3 { fails.push(serde_json::json!({"input": format!("{:?}, {:?}", all[i], all[j]), "what": "== does not agree with identity of the variant"})); }
+  } }
+  let mut triples = 0u64;
+  for i in 0..m { for j in 0..m { if !le[i][j] { continue; } for k in 0..m { triples += 1; if le[j][k] && !le[i][k] && fails.len() < 3 { fails.push(serde_json::json!({"input": format!("{:?}, {:?}, {:?}", all[i], all[j], all[k]), "what": "<= is not transitive"})); } } } }
+  let mut r = Rng(seed.wrapping_mul(0x9E3779B97F4A7C15) | 1);
+  for _ in 0..n {
+    let v: Vec<KeyCode> = (0..r.below(7)).map(|_| { let small = r.below(2) == 0; all[r.below(if small { 12 } else { m })] }).collect();
+    let mut s = v.clone(); s.sort();
+    let asc = s.windows(2).all(|w| w[0] <= w[1]);
+    let mut a = v.clone(); let mut perm = s.len() == v.len();
+    for x in &s { match a.iter().position(|y| y == x) { Some(p) => { a.remove(p); }, None => { perm = false; } } }
+    if !(asc && perm && a.is_empty()) && fails.len() < 3 { fails.push(serde_json::json!({"input": format!("{:?}", v), "what": format!("sort gives {:?}", s)})); }
+  }
+  println!("{}", serde_json::json!({"key_codes": m, "pairs": (m * m) as u64, "triples": triples, "sorted_vectors": n, "failures": fails}));
+  if fails.is_empty() { 0 } else { 1 }
+}
